@@ -2,6 +2,7 @@
 package c11
 
 import (
+	"bytes"
 	"fmt"
 	"net/url"
 	"sort"
@@ -172,7 +173,19 @@ func checkH(c HCase, e *env.Env) (*hx.Violation, hinfo) {
 		}
 	}
 	if pr.Code != 200 {
-		return hx.V("patch-status", "%s (publishTime %s -> %s) -> %v", purl, m1.PublishTime, m2.PublishTime, pr), inf
+		v := hx.V("patch-status", "%s (publishTime %s -> %s) -> %v", purl, m1.PublishTime, m2.PublishTime, pr)
+		if pr.Code == 425 {
+			// defect model KF-C11-base-mismatch, second symptom: the MPD the handler regenerates "at publishTime" (it adds 1 ms)
+			// is already the document of t2 - something became available within that millisecond - so it sees nothing to patch
+			ou := ls.URL(parts, e.Asset.Path, c.MPD, 0)
+			ou = ou[:strings.Index(ou, "?")] + "?publishTime=" + url.QueryEscape(m1.PublishTime)
+			if ro := e.Srv.Get(ou); ro.Code == 200 && !bytes.Equal(ro.Body, r1.Body) {
+				if mo, err := mpdx.Parse(ro.Body); err == nil && mo.PublishTime == m2.PublishTime {
+					v.Kind = "KF-C11-base-mismatch"
+				}
+			}
+		}
+		return v, inf
 	}
 	pd, err := xmlpatch.Parse(pr.Body)
 	if err != nil {
@@ -210,15 +223,10 @@ func checkH(c HCase, e *env.Env) (*hx.Violation, hinfo) {
 	}
 	// defect model KF-C11-base-mismatch: the handler diffs against the MPD it regenerates at publishTime+1 ms,
 	// which is not the document of t1 when the window start moved in between
-	offMS := int64(0) // publishTime is on the clock shifted by timeoffset_; nowMS is not
-	for _, pt := range parts {
-		if strings.HasPrefix(pt, "timeoffset_") {
-			if f, err := strconv.ParseFloat(strings.TrimPrefix(pt, "timeoffset_"), 64); err == nil {
-				offMS = int64(f * 1000)
-			}
-		}
-	}
-	ro, _ := get(p1 + 1 - offMS)
+	// the handler regenerates the old document by asking itself for the MPD "at publishTime": the same request is made here
+	ou := ls.URL(parts, e.Asset.Path, c.MPD, 0)
+	ou = ou[:strings.Index(ou, "?")] + "?publishTime=" + url.QueryEscape(m1.PublishTime)
+	ro := e.Srv.Get(ou)
 	if ro.Code == 200 {
 		if do, err := xmlpatch.Parse(ro.Body); err == nil && do.Canon() != d1.Canon() {
 			if g2, _, e2 := xmlpatch.Apply(do, pd); e2 == nil && g2.Canon() == d2.Canon() {
